@@ -273,6 +273,10 @@ impl Gen {
 
     /// a loop bound: constants incl. zero and negatives, variables, device reads, arithmetic
     pub fn bound(&mut self, plan: &Plan) -> Expr {
+        if self.k.allow_random && self.rng.gen_bool(0.2) {
+            // a drawn bound: evaluated (and drawn) once on entry
+            return Expr::call("random", vec![Expr::Num(self.k.max_bound.max(1) + 1)]);
+        }
         let c = self.rng.gen_range(0..100);
         if c < 45 {
             Gen::const_of(self.rng.gen_range(-2..=self.k.max_bound))
@@ -403,7 +407,20 @@ impl Gen {
                     let v = format!("w{depth}");
                     let pos = self.rng.gen_range(0..=body.len());
                     body.insert(pos, Stmt::Let { name: v.clone(), e: Expr::bin("+", Expr::Id(v.clone()), Expr::Num(1)) });
-                    Expr::bin("<", Expr::Id(v), Expr::Num(self.rng.gen_range(0..4)))
+                    let c = Expr::bin("<", Expr::Id(v), Expr::Num(self.rng.gen_range(0..4)));
+                    // draws in control positions: a condition is evaluated once per pass (and once more to leave), each
+                    // evaluation draws once; the value drawn does not decide the control flow
+                    if self.k.allow_random && self.rng.gen_bool(0.5) {
+                        let n = self.rng.gen_range(2..9);
+                        let r = Expr::call("random", vec![Expr::Num(n)]);
+                        match self.rng.gen_range(0..3) {
+                            0 => Expr::bin("&", c, Expr::bin("<", r, Expr::Num(n))),
+                            1 => Expr::bin("&", Expr::bin(">=", r, Expr::Num(0)), c),
+                            _ => Expr::bin("*", c, Expr::bin("+", r, Expr::Num(1))),
+                        }
+                    } else {
+                        c
+                    }
                 } else {
                     let id = self.row_id();
                     let pos = self.rng.gen_range(0..=body.len());
